@@ -563,7 +563,9 @@ def check_enc2_c11(rep, tier, rng):
             want = expect_dec(c, nb)
         if a != want:
             rep.violation("enc2 round trip fails: %s %s decode(encode(v)) gives %s, expected %s"
-                          % (c.fam, c.tag, a[:200], want[:200]), _rp("roundtrip", l, want, encode=c.enc_line[:4000], impl=a))
+                          % (c.fam, c.tag, a[:200], want[:200]),
+                          _rp("roundtrip", l, want, encode=c.enc_line, impl=a, dec_prefix=" ".join(l.split()[:-1]),
+                              want_vals=want.split()[-1], with_count=(c.fam != "bss")))
         if a != b:
             rep.tie_broken("enc2 decoder model differs from implementation (%s %s): model %s / impl %s"
                            % (c.fam, c.tag, b[:160], a[:160]), l[:2000])
@@ -607,7 +609,7 @@ def check_enc2_c11(rep, tier, rng):
         want = "OK " + nums(c.vals)
         if a != want:
             rep.violation("enc2 dictionary round trip fails (%s %s): %s, expected %s" % (c.par, c.tag, a[:200], want[:200]),
-                          _rp("roundtrip", l, want, encode=c.enc_line[:4000], impl=a))
+                          _rp("dict-roundtrip", l, want, encode=c.enc_line, impl=a, ty=c.par, n=len(c.vals)))
         if a != b:
             rep.tie_broken("enc2 dictionary decoder model differs (%s %s): model %s / impl %s" % (c.par, c.tag, b[:160], a[:160]), l[:2000])
 
@@ -883,6 +885,55 @@ def replay_enc2(j):
         print(err[-1500:])
     if rc != 0 or not out:
         return 1
+    if kind == "roundtrip" and j.get("encode"):
+        # redo the whole round trip on the current tree: encode, then decode the bytes just produced
+        eo, rc, err = vlib.run_lines(drv, [j["encode"]])
+        print("encode   :", (eo[0] if eo else "(died)")[:200])
+        if rc != 0 or not eo or not eo[0].startswith("OK"):
+            return 1
+        data = eo[0].split()[1]
+        dl = j["dec_prefix"] + " " + data
+        do, rc, err = vlib.run_lines(drv, [dl])
+        nb = 0 if data == "-" else len(data) // 2
+        want = ("OK %d %s" % (nb, j["want_vals"])) if j.get("with_count") else "OK " + j["want_vals"]
+        print("decode   :", (do[0] if do else "(died)")[:200])
+        print("expected :", want[:200])
+        return 0 if (rc == 0 and do and do[0] == want) else 1
+    if kind == "dict-roundtrip":
+        eo, rc, err = vlib.run_lines(drv, [j["encode"]])
+        if rc != 0 or not eo or not eo[0].startswith("OK"):
+            return 1
+        t = eo[0].split()
+        k = 4 if j["ty"] in ("i32", "f32") else 8
+        nd = (0 if t[1] == "-" else len(t[1]) // 2) // k
+        do, rc, err = vlib.run_lines(drv, ["dict_dec %s %d %d %s %s" % (j["ty"], nd, j["n"], t[1], t[2])])
+        print("decode   :", (do[0] if do else "(died)")[:200])
+        print("expected :", j["expected"][:200])
+        return 0 if (rc == 0 and do and do[0] == j["expected"]) else 1
+    if kind in ("dict-ba", "dict-page"):
+        t = got.split()
+        if t[0] != "OK":
+            return 1
+        toks = line.split()
+        if toks[1] == "ba":
+            vals = [b"" if x == "." else bytes.fromhex(x) for x in toks[2].split(",")] if toks[2] != "-" else []
+            idxs = [int(x, 16) for x in t[5].split(",")] if t[5] != "-" else []
+            try:
+                entries, used = R.plain_dec("ba", unhx(t[1]), len(set(vals)))
+            except R.SpecError:
+                return 1
+            ok = all(i < len(entries) for i in idxs) and [entries[i] for i in idxs] == vals and used == len(unhx(t[1]))
+            print("dictionary page + indices give the values back:", ok)
+            return 0 if ok else 1
+        k = 4 if toks[1] in ("i32", "f32") else 8
+        vals = [int(x, 16) for x in toks[2].split(",")] if toks[2] != "-" else []
+        seen = []
+        for v in vals:
+            if v not in seen:
+                seen.append(v)
+        ok = unhx(t[1]) == b"".join(v.to_bytes(k, "little") for v in seen)
+        print("dictionary page = distinct values in first-occurrence order:", ok)
+        return 0 if ok else 1
     if kind in ("roundtrip", "line-expect", "line"):
         exp = j.get("expected")
         print("expected :", (exp or "")[:400])
@@ -917,7 +968,4 @@ def replay_enc2(j):
             return 1
         print("reference decoder:", "same values" if got_v == vals else "DIFFERENT values", used, "of", len(data), "bytes")
         return 0 if got_v == vals and used == len(data) else 1
-    if kind in ("dict-ba", "dict-page"):
-        print("re-run ./check ENC2 for dictionary structure checks")
-        return 1
     return 1
